@@ -2119,11 +2119,14 @@ class Circuit(AbstractCircuit):
             raise TypeError('qubit_map must be a function or dict mapping qubits to qubits.')
 
         op_list = [
-            Moment(operation.transform_qubits(transform) for operation in moment.operations)
+            Moment(
+                (operation.transform_qubits(transform) for operation in moment.operations),
+                tags=moment.tags,
+            )
             for moment in self._moments
         ]
 
-        return Circuit(op_list)
+        return Circuit(op_list, tags=self.tags)
 
     def earliest_available_moment(
         self, op: cirq.Operation, *, end_moment_index: int | None = None
